@@ -55,7 +55,7 @@ def decodeVal (viaValue : Bool) : VTy → Json → Option Json
   | .addr, .str s => some (.str s)
   | .uint128, .str s => (canonNat s).bind fun n => if n < 2 ^ 128 then some (.str s) else none
   | .empty, .obj _ => some (.obj [])
-  | .empty, .arr [] => if viaValue then some (.obj []) else none
+  | .empty, .arr _ => if viaValue then some (.obj []) else none   -- positional struct; surplus elements are not checked
   | .option _, .null => some .null
   | .option t, j => decodeVal viaValue t j
   | .vec t, .arr xs => (decodeVals viaValue t xs).map .arr
@@ -63,6 +63,13 @@ def decodeVal (viaValue : Bool) : VTy → Json → Option Json
       let x' ← decodeVal viaValue a x
       let y' ← decodeVal viaValue b y
       pure (.arr [x', y'])
+  | .pair a b, .arr (x :: y :: _ :: _) =>
+      -- the value pass hands the tuple visitor a sequence and never checks that it was consumed
+      if viaValue then do
+        let x' ← decodeVal viaValue a x
+        let y' ← decodeVal viaValue b y
+        pure (.arr [x', y'])
+      else none
   | _, _ => none
 def decodeVals (viaValue : Bool) : VTy → List Json → Option (List Json)
   | _, [] => some []
